@@ -2,7 +2,7 @@
    Stdlib only; no axioms. *)
 From Coq Require Import List Arith ZArith Bool Lia.
 Import ListNotations.
-From V Require Import Model.Align Model.SnapOps Model.TreeAssign Proofs.AlignValid Proofs.AlignProofs Proofs.SeqAssignProofs.
+From V Require Import Model.Align Model.SnapOps Model.TreeAssign Proofs.AlignValid Proofs.AlignProofs Proofs.SeqAssignProofs Proofs.UnmanagedProofs.
 Open Scope nat_scope.
 
 Notation TV := (valid tree val elt_eqb).
@@ -36,7 +36,7 @@ Lemma assign_S : forall f F o n,
       if skind_eqb k k' then RSeq k (walk (assign f F) F (script olds news) olds news) else value_assign F o n
   | _, _ => value_assign F o n
   end.
-Proof. intros f F o n. destruct o as [z c|k olds]; destruct n as [m|k' news]; try reflexivity.
+Proof. intros f F o n. destruct o as [z c|i z|k olds]; destruct n as [m|k' news]; try reflexivity.
   cbn [assign]. destruct (skind_eqb k k'); [|reflexivity]. f_equal.
   generalize (script olds news) as s. intros s. revert olds news.
   induction s as [|d s IH]; intros olds news; [reflexivity|].
@@ -89,20 +89,30 @@ Lemma val_eqb_refl : forall a, val_eqb a a = true.
 Proof. intros a. apply val_eqb_eq. reflexivity. Qed.
 
 (* ------------------------------------------------------------------------- value_assign *)
-Lemma value_assign_fix : forall F o n, f_fix F = true -> eval_r (value_assign F o n) = n.
+(* no user-controlled part anywhere inside *)
+Fixpoint managed (t : tree) : bool :=
+  match t with
+  | TLeaf _ _ => true
+  | TUnm _ _ => false
+  | TSeq _ l => forallb managed l
+  end.
+Lemma managed_not_unm : forall o, managed o = true -> is_unm o = false.
+Proof. intros [z c|i z|k l] H; try reflexivity. discriminate. Qed.
+
+Lemma value_assign_fix : forall F o n, managed o = true -> f_fix F = true -> eval_r (value_assign F o n) = n.
 Proof.
-  intros F o n HF. unfold value_assign. rewrite HF. destruct (val_eqb (eval o) n) eqn:E; cbn [negb]; [|reflexivity].
+  intros F o n Hm HF. unfold value_assign. rewrite (managed_not_unm o Hm). rewrite HF. destruct (val_eqb (eval o) n) eqn:E; cbn [negb]; [|reflexivity].
   destruct (negb (canonical o) && f_update F); [reflexivity|]. cbn [eval_r]. apply val_eqb_eq. exact E.
 Qed.
 Lemma value_assign_nofix : forall F o n, f_fix F = false -> eval_r (value_assign F o n) = eval o.
 Proof.
-  intros F o n HF. unfold value_assign. rewrite HF. destruct (val_eqb (eval o) n) eqn:E; cbn [negb]; [|reflexivity].
+  intros F o n HF. unfold value_assign. destruct (is_unm o); [reflexivity|]. rewrite HF. destruct (val_eqb (eval o) n) eqn:E; cbn [negb]; [|reflexivity].
   destruct (negb (canonical o) && f_update F); [|reflexivity]. cbn [eval_r]. symmetry. apply val_eqb_eq. exact E.
 Qed.
 Lemma value_assign_keep_eq : forall F o n, f_update F = false -> elt_eqb o n = true -> value_assign F o n = RKeep o.
-Proof. intros F o n HU E. unfold value_assign. unfold elt_eqb in E. rewrite E, HU, andb_false_r. reflexivity. Qed.
+Proof. intros F o n HU E. unfold value_assign. destruct (is_unm o); [reflexivity|]. unfold elt_eqb in E. rewrite E, HU, andb_false_r. reflexivity. Qed.
 Lemma value_assign_keep_noflags : forall F o n, f_fix F = false -> f_update F = false -> value_assign F o n = RKeep o.
-Proof. intros F o n HF HU. unfold value_assign. rewrite HF, HU, andb_false_r. destruct (negb (val_eqb (eval o) n)); reflexivity. Qed.
+Proof. intros F o n HF HU. unfold value_assign. destruct (is_unm o); [reflexivity|]. rewrite HF, HU, andb_false_r. destruct (negb (val_eqb (eval o) n)); reflexivity. Qed.
 
 Lemma script_valid : forall olds news, TV (script olds news) olds news.
 Proof. intros. unfold script. apply add_x_valid, align_valid. Qed.
@@ -126,18 +136,19 @@ Proof.
   - rewrite Ha by (left; reflexivity). rewrite IH; [reflexivity|]. intros; apply Ha; right; assumption.
 Qed.
 
-Theorem assign_fix_value : forall f F o n, depth o < f -> f_fix F = true -> eval_r (assign f F o n) = n.
+Theorem assign_fix_value : forall f F o n, depth o < f -> managed o = true -> f_fix F = true -> eval_r (assign f F o n) = n.
 Proof.
-  induction f as [|f IH]; intros F o n Hd HF; [lia|]. rewrite assign_S.
-  destruct o as [z c|k olds]; destruct n as [m|k' news]; try (apply value_assign_fix; exact HF).
-  destruct (skind_eqb k k') eqn:Ek; [|apply value_assign_fix; exact HF].
+  induction f as [|f IH]; intros F o n Hd Hm HF; [lia|]. rewrite assign_S.
+  destruct o as [z c|i z|k olds]; destruct n as [m|k' news]; try (apply value_assign_fix; assumption).
+  destruct (skind_eqb k k') eqn:Ek; [|apply value_assign_fix; assumption].
   apply skind_eqb_eq in Ek. subst k'. cbn [eval_r]. f_equal.
   apply walk_fix_value; [apply script_valid|exact HF|].
-  intros o n Hin. apply IH; [|exact HF]. exact (depth_elt k olds o f Hd Hin).
+  intros o n Hin. apply IH; [exact (depth_elt k olds o f Hd Hin)| |exact HF].
+  cbn [managed] in Hm. rewrite forallb_forall in Hm. apply Hm. exact Hin.
 Qed.
 
-Theorem tree_fix_value : forall F o n, f_fix F = true -> eval_r (assign_tree F o n) = n.
-Proof. intros F o n HF. unfold assign_tree. apply assign_fix_value; [lia|exact HF]. Qed.
+Theorem tree_fix_value : forall F o n, managed o = true -> f_fix F = true -> eval_r (assign_tree F o n) = n.
+Proof. intros F o n Hm HF. unfold assign_tree. apply assign_fix_value; [lia|exact Hm|exact HF]. Qed.
 
 (* ------------------------------------------------------------------------- (2) without fix the value never changes *)
 Lemma walk_nofix_value : forall asg F s os ns, TV s os ns -> f_fix F = false ->
@@ -155,7 +166,7 @@ Qed.
 Theorem assign_nofix_value : forall f F o n, f_fix F = false -> eval_r (assign f F o n) = eval o.
 Proof.
   induction f as [|f IH]; intros F o n HF; [reflexivity|]. rewrite assign_S.
-  destruct o as [z c|k olds]; destruct n as [m|k' news]; try (apply value_assign_nofix; exact HF).
+  destruct o as [z c|i z|k olds]; destruct n as [m|k' news]; try (apply value_assign_nofix; exact HF).
   destruct (skind_eqb k k') eqn:Ek; [|apply value_assign_nofix; exact HF].
   cbn [eval_r eval]. f_equal. apply walk_nofix_value; [apply script_valid|exact HF|].
   intros o n _. apply IH. exact HF.
@@ -210,7 +221,7 @@ Qed.
 Theorem assign_noflags_identity : forall f F o n, f_fix F = false -> f_update F = false -> verbatim (assign f F o n) = Some o.
 Proof.
   induction f as [|f IH]; intros F o n HF HU; [reflexivity|]. rewrite assign_S.
-  destruct o as [z c|k olds]; destruct n as [m|k' news]; try (rewrite value_assign_keep_noflags by assumption; reflexivity).
+  destruct o as [z c|i z|k olds]; destruct n as [m|k' news]; try (rewrite value_assign_keep_noflags by assumption; reflexivity).
   destruct (skind_eqb k k') eqn:Ek; [|rewrite value_assign_keep_noflags by assumption; reflexivity].
   rewrite verbatim_seq. rewrite (walk_noflags (assign f F) F _ olds news (script_valid olds news) HF); [reflexivity|].
   intros o n _. apply IH; assumption.
@@ -236,7 +247,7 @@ Qed.
 Theorem assign_equal_keeps_text : forall f F o n, f_update F = false -> elt_eqb o n = true -> verbatim (assign f F o n) = Some o.
 Proof.
   induction f as [|f IH]; intros F o n HU He; [reflexivity|]. rewrite assign_S.
-  destruct o as [z c|k olds]; destruct n as [m|k' news]; try (rewrite value_assign_keep_eq by assumption; reflexivity).
+  destruct o as [z c|i z|k olds]; destruct n as [m|k' news]; try (rewrite value_assign_keep_eq by assumption; reflexivity).
   destruct (skind_eqb k k') eqn:Ek; [|rewrite value_assign_keep_eq by assumption; reflexivity].
   unfold elt_eqb in He. apply val_eqb_eq in He. cbn [eval] in He. injection He as _ He.
   pose proof (eval_seq_eq_inv olds news He) as HF2.
@@ -254,6 +265,92 @@ Proof. intros. unfold assign_tree. apply assign_nofix_value. assumption. Qed.
 Theorem tree_noflags_identity : forall F o n, f_fix F = false -> f_update F = false -> verbatim (assign_tree F o n) = Some o.
 Proof. intros. unfold assign_tree. apply assign_noflags_identity; assumption. Qed.
 
+
+(* ------------------------------------------------------------------------- (5) C10 at any depth: parts the user controls *)
+Fixpoint unms (t : tree) : list nat :=
+  match t with
+  | TLeaf _ _ => []
+  | TUnm i _ => [i]
+  | TSeq _ l => flat_map unms l
+  end.
+Fixpoint unms_r (r : rtree) : list nat :=
+  match r with
+  | RKeep t => unms t
+  | RGen _ => []
+  | RSeq _ l => flat_map unms_r l
+  end.
+
+Lemma subseq_app : forall X (a b c d : list X), subseq a b -> subseq c d -> subseq (a ++ c) (b ++ d).
+Proof.
+  intros X a b c d H1 H2. induction H1 as [|x l1 l2 H IH|x l1 l2 H IH]; cbn [app]; [exact H2|constructor; exact IH|constructor; exact IH].
+Qed.
+Lemma subseq_nil_app : forall X (a b c : list X), subseq a c -> subseq a (b ++ c).
+Proof. intros X a b c H. induction b as [|x b IH]; [exact H|]. cbn [app]. constructor. exact IH. Qed.
+
+Lemma value_assign_unms : forall F o n, subseq (unms_r (value_assign F o n)) (unms o).
+Proof.
+  intros F o n. unfold value_assign. destruct (is_unm o); [apply subseq_refl|].
+  destruct (negb (val_eqb (eval o) n)); [destruct (f_fix F)|destruct (negb (canonical o) && f_update F)]; cbn [unms_r]; try apply subseq_refl; apply subseq_nil_l.
+Qed.
+
+Lemma walk_unms : forall asg F s os ns,
+  (forall o n, In o os -> subseq (unms_r (asg o n)) (unms o)) ->
+  subseq (flat_map unms_r (walk asg F s os ns)) (flat_map unms os).
+Proof.
+  intros asg F s. induction s as [|d s IH]; intros os ns Ha; [apply subseq_nil_l|].
+  destruct d; cbn [walk]; try apply subseq_nil_l.
+  - (* d *) destruct os as [|o' os']; [apply subseq_nil_l|]. cbn [flat_map]. rewrite flat_map_app.
+    destruct (f_fix F); cbn [flat_map app].
+    + apply subseq_nil_app. apply IH. intros; apply Ha; right; assumption.
+    + rewrite app_nil_r. cbn [unms_r]. apply subseq_app; [apply subseq_refl|]. apply IH. intros; apply Ha; right; assumption.
+  - (* i *) destruct ns as [|n' ns']; [apply subseq_nil_l|]. rewrite flat_map_app.
+    destruct (f_fix F); cbn [flat_map unms_r app]; apply IH; exact Ha.
+  - (* m *) destruct os as [|o' os']; [apply subseq_nil_l|]. destruct ns as [|n' ns']; [apply subseq_nil_l|].
+    cbn [flat_map]. apply subseq_app; [apply Ha; left; reflexivity|]. apply IH. intros; apply Ha; right; assumption.
+  - (* x *) destruct os as [|o' os']; [apply subseq_nil_l|]. destruct ns as [|n' ns']; [apply subseq_nil_l|].
+    cbn [flat_map]. apply subseq_app; [apply Ha; left; reflexivity|]. apply IH. intros; apply Ha; right; assumption.
+Qed.
+
+(* whatever is approved and whatever is observed: no code is ever generated for a user-controlled part, none is duplicated or
+   reordered; the ones that remain are a subsequence of the old ones (the others vanished together with a deleted element or
+   a replaced holder) - at ANY nesting depth *)
+Theorem assign_unmanaged_subsequence : forall f F o n, subseq (unms_r (assign f F o n)) (unms o).
+Proof.
+  induction f as [|f IH]; intros F o n; [apply subseq_refl|]. rewrite assign_S.
+  destruct o as [z c|i z|k olds]; destruct n as [m|k' news]; try apply value_assign_unms.
+  destruct (skind_eqb k k'); [|apply value_assign_unms].
+  cbn [unms_r unms]. apply walk_unms. intros o n _. apply IH.
+Qed.
+
+(* without fix nothing the user controls can disappear *)
+Lemma walk_unms_nofix : forall asg F s os ns, valid tree val elt_eqb s os ns -> f_fix F = false ->
+  (forall o n, In o os -> unms_r (asg o n) = unms o) ->
+  flat_map unms_r (walk asg F s os ns) = flat_map unms os.
+Proof.
+  intros asg F s os ns H HF Ha.
+  induction H as [|s o n os ns He H IH|s o os ns H IH|s n os ns H IH|s o n os ns H IH]; cbn [walk]; try rewrite HF; cbn [app flat_map].
+  - reflexivity.
+  - rewrite Ha by (left; reflexivity). rewrite IH; [reflexivity|]. intros; apply Ha; right; assumption.
+  - cbn [unms_r]. rewrite IH; [reflexivity|]. intros; apply Ha; right; assumption.
+  - apply IH. exact Ha.
+  - rewrite Ha by (left; reflexivity). rewrite IH; [reflexivity|]. intros; apply Ha; right; assumption.
+Qed.
+(* without fix nothing the user controls disappears, at any depth *)
+Theorem assign_unmanaged_kept_nofix : forall f F o n, f_fix F = false -> unms_r (assign f F o n) = unms o.
+Proof.
+  induction f as [|f IH]; intros F o n HF; [reflexivity|]. rewrite assign_S.
+  destruct o as [z c|i z|k olds]; destruct n as [m|k' news].
+  - unfold value_assign. cbn [is_unm]. rewrite HF. destruct (negb (val_eqb (eval (TLeaf z c)) (VAtom m))); [reflexivity|].
+    destruct (negb (canonical (TLeaf z c)) && f_update F); reflexivity.
+  - unfold value_assign. cbn [is_unm eval val_eqb negb]. rewrite HF. reflexivity.
+  - reflexivity.
+  - reflexivity.
+  - unfold value_assign. cbn [is_unm eval val_eqb negb]. rewrite HF. reflexivity.
+  - destruct (skind_eqb k k') eqn:Ek.
+    + cbn [unms_r unms]. apply walk_unms_nofix; [apply script_valid|exact HF|]. intros o n _. apply IH. exact HF.
+    + unfold value_assign. cbn [is_unm eval]. rewrite val_eqb_seq, Ek. cbn [andb negb]. rewrite HF. reflexivity.
+Qed.
+
 (* the result does not depend on the fuel once it exceeds the depth *)
 Lemma walk_ext : forall asg1 asg2 F s os ns, (forall o n, In o os -> asg1 o n = asg2 o n) ->
   walk asg1 F s os ns = walk asg2 F s os ns.
@@ -270,7 +367,7 @@ Qed.
 Theorem assign_fuel_irrelevant : forall f1 f2 F o n, depth o < f1 -> depth o < f2 -> assign f1 F o n = assign f2 F o n.
 Proof.
   induction f1 as [|f1 IH]; intros f2 F o n H1 H2; [lia|]. destruct f2 as [|f2]; [lia|]. rewrite !assign_S.
-  destruct o as [z c|k olds]; destruct n as [m|k' news]; try reflexivity.
+  destruct o as [z c|i z|k olds]; destruct n as [m|k' news]; try reflexivity.
   destruct (skind_eqb k k'); [|reflexivity]. f_equal. apply walk_ext.
   intros o n Hin. apply IH; [exact (depth_elt k olds o f1 H1 Hin)|exact (depth_elt k olds o f2 H2 Hin)].
 Qed.
